@@ -13,6 +13,8 @@ class Base:
     TRUSTED = []
     ASSUMPTIONS = []
     SEARCH_FACTOR = 5
+    # set by core around every matches_known call: the model's observation of the case being judged
+    current_model_obs = None
 
     # --- cases -------------------------------------------------------------------------------
     def corpus(self):
